@@ -376,6 +376,16 @@ def apply_along_axes(func, data, axis=None):
     reshaped_data = moved_data.reshape(-1, *moved_data.shape[len(axis):])
     return np.apply_along_axis(func, axis=0, arr=reshaped_data)
 ''',
+    "parse_radec": '''
+def parse_radec(src_raj, src_dej):
+    ho, mi = divmod(src_raj, 10000)
+    mi, se = divmod(mi, 100)
+    sign = "-" if src_dej < 0 else "+"
+    de, ami = divmod(abs(src_dej), 10000)
+    ami, ase = divmod(ami, 100)
+    radec_str = f"{int(ho)} {int(mi)} {se} {sign}{int(de)} {int(ami)} {ase}"
+    return SkyCoord(radec_str, unit=(units.hourangle, units.deg))
+''',
     "eos": '''
 def eos(self):
     eof = self.file_obj.tell() == os.fstat(self.file_obj.fileno()).st_size
